@@ -20,6 +20,8 @@ from mc.props.c01 import teq
 FMTS = fresh(("short_textgrid", "long_textgrid", "json", "textgrid_json"))
 OVERRIDES = ("none", "equal", "below", "above", "both", "inside-min", "inside-max", "just-below", "just-above", "lead-gap-mid", "lead-gap-end", "trail-gap-mid", "trail-gap-start")
 ORD = 0.25
+# (the second interval tier is named with quotation marks in it: a tier name is data, and the four forms spell a quotation mark differently)
+T2NAME = 'the "second" tier'
 
 
 def build(seq, base, slens, labsuffix=""):
@@ -92,7 +94,7 @@ def check(case):
     # a point tier and a SECOND interval tier with the same content: every interval tier is treated alike
     from mc.props.common import PT as _PT
     tg.addTier(_PT("p", [(lo, "pt")], lo, hi))
-    tg.addTier(IT("t2", list(ents), lo, hi))
+    tg.addTier(IT(T2NAME, list(ents), lo, hi))
     T = F(thr) if thr is not None else None
     fn = os.path.join(scratch_dir(), "c04.TextGrid")
     viols = []
@@ -177,7 +179,7 @@ def check(case):
                 if not (teq(fmin, d["xmin"]) and teq(fmax, d["xmax"])):
                     viols.append(Viol("file-span", f"{cfg}: file span ({d['xmin']!r},{d['xmax']!r}), requested ({fmin!r},{fmax!r})"))
                     continue
-                if [t["name"] for t in d["tiers"]] != ["t", "p", "t2"]:
+                if [t["name"] for t in d["tiers"]] != ["t", "p", T2NAME]:
                     viols.append(Viol("tiers", f"{cfg}: tiers {[t['name'] for t in d['tiers']]}"))
                     continue
                 for ti in (0, 2):
